@@ -190,6 +190,20 @@ CLAIMED = {
             "manifest writer and reader, termination of the ancestor walk. Existence of the files named by metadata_log is "
             "StoreInv (nothing deletes v*.metadata.json; checked only by the bounded replay).",
             "DESIGN.md 4/C15"),
+    "C18": ("Proof of the per-function contracts behind idempotent creation: MetadataManager.initialize_table (local and CAS-S3) "
+            "refuses, inside the metadata lock and without writing, whenever a version is resolvable or recoverable, writes the "
+            "metadata file before the pointer, uses create-if-absent on CAS backends and maps a lost race to TableExistsError; "
+            "Table.__init__ initialises iff asked to create and one metadata read found nothing, and never writes by itself; "
+            "Table._initialize_table hands exactly one freshly built metadata (schemas == [supplied schema], current id == its "
+            "id) to initialize_table, swallows TableExistsError only and lets storage failures out; _resolve_table_schema returns "
+            "the persisted current non-empty schema (loop invariants, unbounded schema list); append_data without a schema "
+            "argument writes with the resolved schema and raises ValueError before touching storage when there is none. "
+            "'Exactly one initialisation among concurrent creators' follows by lemma ONE-INIT from these contracts plus the "
+            "exclusion contracts of C19/C08; interleavings are not enumerated.",
+            "Trusted: lemma ONE-INIT (meta-argument), T-flock / T-s3 create-if-absent, A-ctor (manager constructors do not touch "
+            "storage), T-store. The thorough tier's scenario (bounded) races six creators and re-creates over lost / garbage "
+            "pointers on the real code.",
+            "DESIGN.md 4/C18"),
     "C16": ("Proof over the trace of T-os calls issued by the real code: LocalStorageBackend.write_file writes the whole content to a "
             "temp file in the target's directory, fsyncs it after the last write and before os.replace, fsyncs the directory after, and "
             "an exception implies the rename did not happen; DataFileWriter.open/close do the same for parquet files (fsync of the "
